@@ -184,8 +184,15 @@ wait:
 }
 
 // ---- scenario B: WorkerLimit n, 3n jobs due at once, every execution waits at a barrier of size n
-func poolLimited(r *rand.Rand, n int, st *poolStats) {
+func poolLimited(r *rand.Rand, n int, st *poolStats) { poolLimitedOpt(r, n, false, st) }
+
+// restartFirst: the scheduler is started, stopped and waited for (drained) before the run that is measured, on the same live
+// parent context: the pool of a stopped run must be gone, so the bound n holds for the scheduler object as well.
+func poolLimitedOpt(r *rand.Rand, n int, restartFirst bool, st *poolStats) {
 	name := fmt.Sprintf("pool-%d", n)
+	if restartFirst {
+		name = fmt.Sprintf("pool-%d-after-restart", n)
+	}
 	s, err := quartz.NewStdScheduler(quartz.WithWorkerLimit(n), quartz.WithOutdatedThreshold(time.Hour))
 	must(err)
 	const waves = 3
@@ -222,6 +229,16 @@ func poolLimited(r *rand.Rand, n int, st *poolStats) {
 	}
 	ctx, cancel := context.WithCancel(context.Background())
 	s.Start(ctx)
+	if restartFirst {
+		s.Stop()
+		wctx, wc := context.WithTimeout(context.Background(), 3*time.Second)
+		s.Wait(wctx)
+		if wctx.Err() != nil {
+			st.violation("restart: Wait did not return within 3 s after Stop of an idle WorkerLimit %d scheduler (goroutines of the stopped run are still alive)", n)
+		}
+		wc()
+		s.Start(ctx)
+	}
 	got := 0
 	deadline := time.After(30 * time.Second)
 wait:
@@ -477,6 +494,12 @@ func poolRun(args []string) int {
 			poolLimited(r, n, st)
 		}
 		poolUnbounded(r, st)
+		poolLimitedOpt(r, []int{2, 4}[r.Intn(2)], true, st)
+		if k == 0 { // fewer processors than workers: executions that wait (not compute) must still reach n in progress
+			oldProcs := runtime.GOMAXPROCS(2)
+			poolLimited(r, 4, st)
+			runtime.GOMAXPROCS(oldProcs)
+		}
 		if k == 0 {
 			poolRestartOverlap(r, 0, st)
 			poolRestartOverlap(r, 2, st)
